@@ -175,6 +175,68 @@ def _worker(job):
     return out
 
 
+def _child(job, conn):
+    import threading
+
+    res = {}
+
+    def body():
+        res["out"] = _worker(job)
+
+    # deep expression DAGs recurse deeply (canon / diff / evalf): run on a thread with a large C stack
+    threading.stack_size(1024 * 1024 * 1024)
+    t = threading.Thread(target=body)
+    t.start()
+    t.join()
+    try:
+        conn.send(res.get("out", dict(job=job["name"], results=[], facts=[], error="worker thread died")))
+    finally:
+        conn.close()
+
+
+def run_jobs(ctx, jobs, procs, job_timeout):
+    """one process per job, at most `procs` at a time; a crashed or overdue worker is reported, never awaited"""
+    pending = list(jobs)
+    running = []
+    done = {}
+    while pending or running:
+        while pending and len(running) < procs:
+            j = pending.pop(0)
+            rx, tx = ctx.Pipe(duplex=False)
+            p = ctx.Process(target=_child, args=(j, tx))
+            p.start()
+            tx.close()
+            running.append((j, p, rx, time.time()))
+        still = []
+        for (j, p, rx, st) in running:
+            if rx.poll(0.0):
+                try:
+                    done[j["name"]] = rx.recv()
+                except EOFError:
+                    done[j["name"]] = dict(job=j["name"], results=[], facts=[], error="worker died without a result (exit code %s)" % p.exitcode)
+                p.join(5)
+                continue
+            if not p.is_alive():
+                if rx.poll(0.2):
+                    try:
+                        done[j["name"]] = rx.recv()
+                        continue
+                    except EOFError:
+                        pass
+                done[j["name"]] = dict(job=j["name"], results=[], facts=[], error="worker crashed (exit code %s)" % p.exitcode)
+                continue
+            if time.time() - st > job_timeout:
+                p.terminate()
+                p.join(5)
+                done[j["name"]] = dict(job=j["name"], results=[], facts=[], error="job timed out after %ds" % job_timeout)
+                continue
+            still.append((j, p, rx, st))
+        running = still
+        if running:
+            time.sleep(0.05)
+    return [(j, done[j["name"]]) for j in jobs]
+
+
 def real_eval(job, theta, timeout=600):
     """runs the scenario on the real torch at parameter point theta (subprocess)"""
     payload = json.dumps(dict(module=job["module"], scenario=job["scenario"], kwargs=job["kwargs"], theta=theta))
@@ -239,17 +301,8 @@ def run_check(pid, tier, jobs, meta, seed=0, procs=None, job_timeout=None, extra
     known = load_known()
     kf = {(f["property"], f["key"]): f for f in known.get("findings", [])}
     ctx = mp.get_context("fork")
-    outs = []
     inconclusive = []
-    if jobs:
-        with ctx.Pool(processes=min(procs, len(jobs)), maxtasksperchild=1) as pool:
-            asyncs = [(j, pool.apply_async(_worker, (j,))) for j in jobs]
-            for j, a in asyncs:
-                try:
-                    outs.append((j, a.get(timeout=max(1, job_timeout - (time.time() - t0)) if False else job_timeout)))
-                except mp.TimeoutError:
-                    outs.append((j, dict(job=j["name"], results=[], facts=[], error="job timed out after %ds" % job_timeout)))
-            pool.terminate()
+    outs = run_jobs(ctx, jobs, procs, job_timeout)
     # ---- triage --------------------------------------------------------------------------------
     n_oblig = n_unsat = n_sat = n_unknown = n_twins = n_twins_ok = 0
     solver_s = nf_s = 0.0
